@@ -540,6 +540,62 @@ def fuse_lists(stmts):
     return stmts
 
 
+def join_lists(stmts):
+    """L = [e0, ..]; ... L.append(e) (at any depth) ...; X = bytearray().join(L)   ->   L = bytearray(); L += e0; ... L += e ...; X = L
+    when L is mentioned nowhere else: the pieces end up in X in the order they were appended, with nothing between them."""
+    stmts = list(stmts)
+    for i, s in enumerate(stmts):
+        if not (isinstance(s, ast.Assign) and len(s.targets) == 1 and isinstance(s.targets[0], ast.Name) and isinstance(s.value, ast.List)):
+            continue
+        L = s.targets[0].id
+        if any(isinstance(x, ast.Name) and x.id == L for e in s.value.elts for x in ast.walk(e)):
+            continue
+
+        def is_join(x):
+            if not (isinstance(x, ast.Assign) and len(x.targets) == 1 and isinstance(x.targets[0], ast.Name) and isinstance(x.value, ast.Call)
+                    and isinstance(x.value.func, ast.Attribute) and x.value.func.attr == "join" and len(x.value.args) == 1
+                    and isinstance(x.value.args[0], ast.Name) and x.value.args[0].id == L and not x.value.keywords):
+                return False
+            sep = x.value.func.value
+            return (isinstance(sep, ast.Call) and isinstance(sep.func, ast.Name) and sep.func.id in ("bytearray", "bytes") and not sep.args
+                    and not sep.keywords) or (isinstance(sep, ast.Constant) and sep.value == b"")
+        joins = [k for k in range(i + 1, len(stmts)) if is_join(stmts[k])]
+        if len(joins) != 1:
+            continue
+        k = joins[0]
+        apps = []
+        for st_ in stmts[i + 1:k]:
+            for x in ast.walk(st_):
+                if isinstance(x, ast.Expr) and isinstance(x.value, ast.Call) and isinstance(x.value.func, ast.Attribute) \
+                        and x.value.func.attr == "append" and isinstance(x.value.func.value, ast.Name) and x.value.func.value.id == L \
+                        and len(x.value.args) == 1 and not x.value.keywords \
+                        and not any(isinstance(y, ast.Name) and y.id == L for y in ast.walk(x.value.args[0])):
+                    apps.append(x)
+        mentions_ = sum(1 for st_ in stmts for x in ast.walk(st_) if isinstance(x, ast.Name) and x.id == L)
+        if mentions_ != 1 + len(apps) + 1:
+            continue
+        if any(isinstance(x, (ast.For, ast.While)) and any(a is y for y in ast.walk(x) for a in apps) for st_ in stmts[i + 1:k] for x in ast.walk(st_)):
+            # an append inside a loop is a repeated element: left to the reader of loops
+            pass
+        ids = {id(a) for a in apps}
+
+        class T(ast.NodeTransformer):
+            def visit_Expr(self, x):
+                if id(x) in ids:
+                    return ast.copy_location(ast.AugAssign(target=ast.Name(id=L, ctx=ast.Store()), op=ast.Add(), value=x.value.args[0]), x)
+                return x
+        head = [ast.copy_location(ast.Assign(targets=[ast.Name(id=L, ctx=ast.Store())],
+                                             value=ast.Call(func=ast.Name(id="bytearray", ctx=ast.Load()), args=[], keywords=[])), s)]
+        head += [ast.copy_location(ast.AugAssign(target=ast.Name(id=L, ctx=ast.Store()), op=ast.Add(), value=e), s) for e in s.value.elts]
+        mid = [T().visit(st_) for st_ in stmts[i + 1:k]]
+        tail = [ast.copy_location(ast.Assign(targets=stmts[k].targets, value=ast.Name(id=L, ctx=ast.Load())), stmts[k])]
+        out = stmts[:i] + head + mid + tail + stmts[k + 1:]
+        for x in out:
+            ast.fix_missing_locations(x)
+        return join_lists(out)
+    return stmts
+
+
 def unroll_displays(stmts):
     """`for x, y in ((a, b), (c, d)): B`  ->  B[x:=a, y:=b]; B[x:=c, y:=d]  when the display is written out in the loop header, its
     elements are plain reads (names, attributes, constants), and B neither rebinds the loop variables, nor stores what the
@@ -641,11 +697,43 @@ def split_assignments(stmts):
     return out
 
 
+def demap(stmts, mod):
+    """map(f, xs) written as the generator expression it abbreviates (f(x) for x in xs), a module-level helper whose body is one
+    return expression written out in place; list(<generator>) as the list comprehension."""
+    class T(ast.NodeTransformer):
+        def visit_Call(self, n):
+            self.generic_visit(n)
+            if isinstance(n.func, ast.Name) and n.func.id == "map" and len(n.args) == 2 and not n.keywords:
+                f = n.args[0]
+                var = "__map_item_%d_%d" % (n.lineno, n.col_offset)
+                elt = None
+                if isinstance(f, ast.Name) and f.id in mod.funcs:
+                    h = mod.funcs[f.id]
+                    body = [x for x in h.node.body if not (isinstance(x, ast.Expr) and isinstance(x.value, ast.Constant))]
+                    if len(body) == 1 and isinstance(body[0], ast.Return) and body[0].value is not None and len(h.params) == 1 \
+                            and not any(isinstance(x, (ast.Lambda, ast.ListComp, ast.GeneratorExp, ast.NamedExpr)) for x in ast.walk(body[0].value)):
+                        elt = _Subst({h.params[0]: ast.Name(id=var, ctx=ast.Load())}, {}).visit(copy.deepcopy(body[0].value))
+                if elt is None and isinstance(f, (ast.Name, ast.Attribute)):
+                    elt = ast.Call(func=f, args=[ast.Name(id=var, ctx=ast.Load())], keywords=[])
+                if elt is not None:
+                    g = ast.GeneratorExp(elt=elt, generators=[ast.comprehension(target=ast.Name(id=var, ctx=ast.Store()),
+                                                                                iter=n.args[1], ifs=[], is_async=0)])
+                    return ast.fix_missing_locations(ast.copy_location(g, n))
+            if isinstance(n.func, ast.Name) and n.func.id == "list" and len(n.args) == 1 and not n.keywords \
+                    and isinstance(n.args[0], ast.GeneratorExp):
+                return ast.copy_location(ast.ListComp(elt=n.args[0].elt, generators=n.args[0].generators), n)
+            return n
+    if not any(isinstance(x, ast.Name) and x.id == "map" for s in stmts for x in ast.walk(s)):
+        return stmts
+    return [T().visit(copy.deepcopy(s)) for s in stmts]
+
+
 def inlined_body(prog, cls, fn):
     """(statements of fn with helper calls inlined, list of helpers inlined)."""
     inl = Inliner(prog, cls.module if cls is not None else fn.module, cls)
     inl.owner_stack.append(fn.cls)
-    first = list(fn.node.body) if fn.name == "decode" else split_assignments(list(fn.node.body))
+    first = demap(list(fn.node.body), cls.module if cls is not None else fn.module)
+    first = first if fn.name == "decode" else split_assignments(join_lists(copy.deepcopy(first)))
     body = inl.body(comps_to_loops(unroll_displays(fuse_lists(first))))
     body = detuple(body)
     if fn.name == "decode":
